@@ -234,7 +234,7 @@ func (e *Engine) mergeStates(base *State, sts []*State) []*State {
 	for _, s := range sts {
 		ok := len(s.inputs) == len(ref.inputs) && len(s.threads) == len(ref.threads) && s.cur == ref.cur &&
 			len(s.events) == len(ref.events) && len(s.tags) == len(ref.tags) && len(s.lockset) == len(ref.lockset) &&
-			len(s.pendingDocAssign) == 0 && len(s.accesses) == len(ref.accesses)
+			len(s.pendingDocAssign) == 0 && len(s.accesses) == len(ref.accesses) && s.sumPending == ref.sumPending
 		if ok {
 			for i := range s.inputs {
 				if s.inputs[i].Name != ref.inputs[i].Name || s.inputs[i].T != ref.inputs[i].T || s.inputs[i].S != ref.inputs[i].S || s.inputs[i].Pick != ref.inputs[i].Pick {
@@ -319,6 +319,19 @@ func (e *Engine) mergeStates(base *State, sts []*State) []*State {
 			}
 		}
 	}
+	if ref.sumPending {
+		vals := make([]Value, len(cand))
+		same := true
+		for i, s := range cand {
+			vals[i] = s.sumRes
+			if i > 0 && !sameValue(vals[0], s.sumRes) {
+				same = false
+			}
+		}
+		if !same {
+			locs = append(locs, locVals{loc: diffLoc{kind: "sumres"}, vals: vals})
+		}
+	}
 	// heap objects: a location whenever some candidates differ or lack the object
 	ids := map[int]bool{}
 	for _, s := range cand {
@@ -363,6 +376,13 @@ func (e *Engine) mergeStates(base *State, sts []*State) []*State {
 		for li, l := range locs {
 			if _, m := l.vals[i].(missingObj); m {
 				shapes[i][li] = ""
+			} else if iv, isI := l.vals[i].(IfaceV); isI && l.loc.kind == "sumres" && ref.sumCoarse {
+				// generated validators: any two non-nil errors are the same outcome
+				if iv.t == nil {
+					shapes[i][li] = "I:nil"
+				} else {
+					shapes[i][li] = "I:err"
+				}
 			} else {
 				shapes[i][li] = deepShape(l.vals[i])
 			}
@@ -478,7 +498,12 @@ func (e *Engine) mergeStates(base *State, sts []*State) []*State {
 				continue
 			}
 			sub := make([][]*Term, len(vals))
-			mv := e.mergeDeep(m, vals, sub)
+			var mv Value
+			if l.loc.kind == "sumres" && ref.sumCoarse {
+				mv = vals[0]
+			} else {
+				mv = e.mergeDeep(m, vals, sub)
+			}
 			for k, gi := range who {
 				eqs[gi] = append(eqs[gi], sub[k]...)
 			}
@@ -487,6 +512,8 @@ func (e *Engine) mergeStates(base *State, sts []*State) []*State {
 				m.threads[l.ti].frames[l.fi].regs[l.loc.reg] = mv
 			case "heap":
 				m.heap.objs[l.loc.obj] = mv
+			case "sumres":
+				m.sumRes = mv
 			}
 		}
 		var disj []*Term
